@@ -5,7 +5,7 @@ import ast
 
 from ..model import ENFA, NFA, DFA, EPS_TAG
 from .common import site_of
-from .flow import (Oblig, calls, events, receivers, START, FINAL, STATES, SYMBOLS, DELTA_SYM, DELTA_EPS, SELF, P,
+from .flow import (both_answers, Oblig, calls, events, receivers, START, FINAL, STATES, SYMBOLS, DELTA_SYM, DELTA_EPS, SELF, P,
                    result_locs, deps_of, arg_deps, is_worklist_closure, comp)
 
 EXPLANATION = (
@@ -34,7 +34,7 @@ def run(eng, rep, tier):
                       "the answer depends on " + role, "is_empty does not depend on " + role, summ,
                       site=site_of(prog, fi, fi.node))
         consts = {ev.value.const for ev in summ.events if ev.kind == "ret" and ev.value is not None and ev.value.has_const()}
-        ob.decide("R1", "C04.1", fi, "is_empty-both-answers:" + label, consts == {True, False}, "both answers reachable",
+        ob.decide("R1", "C04.1", fi, "is_empty-both-answers:" + label, both_answers(summ), "both answers reachable",
                   "is_empty can only answer %s" % sorted(consts), summ, site=site_of(prog, fi, fi.node))
         fin_ret = [ev for ev in summ.events if ev.kind == "ret" and ev.value is not None and ev.value.has_const()
                    and ev.value.const is False]
@@ -79,7 +79,7 @@ def run(eng, rep, tier):
                         "NondeterministicTransitionFunction.is_deterministic"]
     s3 = interp.run_entry(f3, f3.cls.qname)
     consts = {ev.value.const for ev in s3.events if ev.kind == "ret" and ev.value is not None and ev.value.has_const()}
-    ob.decide("R1", "C04.2", f3, "tf-determinism-both-answers", consts == {True, False} and
+    ob.decide("R1", "C04.2", f3, "tf-determinism-both-answers", both_answers(s3) and
               ("self", ("_transitions",)) in deps_of(s3.ret),
               "the transition function's determinism test reads every successor set",
               "NondeterministicTransitionFunction.is_deterministic does not inspect the successor sets", s3,
@@ -101,15 +101,21 @@ def run(eng, rep, tier):
                       "the answer depends on " + role, "is_acyclic does not follow " + role, summ,
                       site=site_of(prog, fi, fi.node))
         consts = {ev.value.const for ev in summ.events if ev.kind == "ret" and ev.value is not None and ev.value.has_const()}
-        ob.decide("R1", "C04.3", fi, "is_acyclic-both-answers:" + label, consts == {True, False}, "both answers reachable",
+        ob.decide("R1", "C04.3", fi, "is_acyclic-both-answers:" + label, both_answers(summ), "both answers reachable",
                   "is_acyclic can only answer %s" % sorted(consts), summ, site=site_of(prog, fi, fi.node))
 
     # per-path visited sets: every pushed (state, visited) pair carries its own copy of the path set
     fa = prog.method("EpsilonNFA", "is_acyclic")
     sa_ = interp.run_entry(fa, ENFA)
-    pushes = [ev for ev in sa_.events if ev.kind == "write" and ev.wkind in ("mutate:append", "mutate:appendleft")
-              and ev.value is not None and ev.value.items is not None and len(ev.value.items) == 2]
-    shared = [ev for ev in pushes if any(l[1] and l[1][-1] == "[]" for l in ev.value.items[1].alias)]
+    def pushed(ev):
+        """the element put on the worklist: the argument of append, an element of the argument of extend"""
+        if ev.kind != "write" or ev.value is None:
+            return None
+        v = ev.value if ev.wkind in ("mutate:append", "mutate:appendleft") else \
+            ev.value.elem if ev.wkind in ("mutate:extend", "mutate:__iadd__", "augassign") else None
+        return v if v is not None and v.items is not None and len(v.items) == 2 else None
+    pushes = [ev for ev, _ in events(sa_, "write", own=True) if pushed(ev) is not None]
+    shared = [ev for ev in pushes if any(l[1] and l[1][-1] == "[]" for l in pushed(ev).items[1].alias)]
     ob.decide("R8b", "C04.3", fa, "path-set-copied-per-push", bool(pushes) and not shared,
               "every pushed successor gets its own copy of the path's visited set (%d pushes)" % len(pushes),
               "a successor is pushed with the visited set of the popped path itself: sibling successors share one set and "
